@@ -382,6 +382,15 @@ func (m *lockMon) parseKey(k string) (name string, idx int, ok bool) {
 	return parts[1], i, true
 }
 
+func (m *lockMon) anyFaultFired(s *sched.Sim) bool {
+	for _, f := range s.Faults {
+		if f.FiredStep > 0 {
+			return true
+		}
+	}
+	return false
+}
+
 func (m *lockMon) lose(val, why string) {
 	if a := m.attempts[val]; a != nil && !a.lost {
 		a.lost = true
@@ -729,6 +738,18 @@ func (m *lockMon) onStep(s *sched.Sim) error {
 					m.out.probe("live-holder-below-majority")
 				}
 				continue
+			}
+			// "promptly", without a clock: the invalidation of a key another client deleted or overwrote reaches the holder's
+			// connection, wakes the key's monitor, whose extension then fails. When nothing but the clock can make progress
+			// any more (every push delivered, every goroutine asleep) that chain has run its course and the lock context
+			// must be done; a holder that is still live can only find out when its next extension timer fires. Judged in
+			// runs without connection faults (a lost connection loses pushes; then only the timer is left).
+			if s.IdleFor() > 0 && h.releaseStep < 0 && h.retStep < s.Step && !m.anyFaultFired(s) &&
+				(h.att.lostWhy == "deleted by another client" || h.att.lostWhy == "overwritten" || h.att.lostWhy == "flushed") {
+				m.flag(h, "loss-not-noticed-when-idle", "%s: owns %d of %d keys (majority %d; first loss: %s) and its lock context is still live at step %d although nothing but the clock can make progress (idle for %v of fake time): the invalidation did not cancel it, only its next extension timer can",
+					m.describe(h), own, m.total, m.p.Majority, h.att.lostWhy, s.Step, s.IdleFor())
+			} else if s.IdleFor() > 0 && h.releaseStep < 0 {
+				m.out.notJudged("idle-live-holder-below-majority:" + h.att.lostWhy)
 			}
 			if now.Sub(h.notOwningAt) > m.bound {
 				m.flag(h, "loss-not-noticed", "%s: owns %d of %d keys (majority %d) since %v of fake time (first loss: %s), longer than validity %v + interval %v + slack, and its lock context is still live at step %d",
